@@ -80,6 +80,11 @@ def Op.Plain : Op → Prop
   | .addTrait _ _ t => t.Plain
   | _ => True
 
+instance (op : Op) : Decidable op.Plain := by
+  cases op <;> unfold Op.Plain <;> exact inferInstance
+
+deriving instance DecidableEq for Except
+
 theorem trait0_plain {c : Cls} {o : Obj} (hc : ClsPlain c) (ho : ObjPlain o) {n : Name} {t : Trait}
     (h : trait0 c o n = some t) : t.Plain := by
   unfold trait0 at h
